@@ -600,29 +600,29 @@ example : GoodView exView ∧ GoodView exView2 ∧ 5 ≤ 7 ∧
   unfold GoodView SortedEnts LoadFits; decide
 example : visRead exView2 [1] 7 0 = some ([1], 7, 0, 0, 0, [20]) ∧ visRead exView2 [2] 7 0 = none := by decide
 
-/-! ## F16: an incremental backup misses a delete whose marker compaction already dropped -/
+/-! ## F19: an incremental backup misses a delete whose marker compaction already dropped -/
 
-def f16k1 : Ent := { key := [0x6b], ver := 1, emeta := 64, umeta := 0, exp := 0, val := [0x76] }
-def f16k2 : Ent := { key := [0x6b], ver := 2, emeta := 65, umeta := 0, exp := 0, val := [] }
-def f16z3 : Ent := { key := [0x7a], ver := 3, emeta := 64, umeta := 0, exp := 0, val := [1] }
+def f19k1 : Ent := { key := [0x6b], ver := 1, emeta := 64, umeta := 0, exp := 0, val := [0x76] }
+def f19k2 : Ent := { key := [0x6b], ver := 2, emeta := 65, umeta := 0, exp := 0, val := [] }
+def f19z3 : Ent := { key := [0x7a], ver := 3, emeta := 64, umeta := 0, exp := 0, val := [1] }
 /-- the source at the first backup (`k = v @1`) … -/
-def f16S1 : List Ent := [f16k1]
+def f19S1 : List Ent := [f19k1]
 /-- … and after `delete k @2`, a commit `@3` and an L0 → Lmax compaction with discard
     timestamp 2 and no overlap below (`subcompact`): the marker and everything under it are gone. -/
-def f16S2 : List Ent :=
-  subcompact { discardTs := 2, numKeep := 1, hasOverlap := false, now := 0, dropPrefixes := [] } [f16k2, f16k1, f16z3]
+def f19S2 : List Ent :=
+  subcompact { discardTs := 2, numKeep := 1, hasOverlap := false, now := 0, dropPrefixes := [] } [f19k2, f19k1, f19z3]
 
 /-- negation witness for `C24_incremental` without its hypothesis `hchain` (the history between
     two backups only grew): the source reads `k` as absent, the restored chain (full backup at 1,
     incremental backup with `since` = the returned version 1 at 3) still reads `k = v`. -/
-theorem C24_F16_lost_tombstone_witness :
-    f16S2 = [f16z3] ∧
+theorem C24_F19_lost_tombstone_witness :
+    f19S2 = [f19z3] ∧
     (let o : Opts := { maxBatchCount := 100, maxBatchSize := 10000 }
-     let b1 := backupKVs f16S1 0 1 0
-     let b2 := backupKVs f16S2 (maxVersionOf b1) 3 0
+     let b1 := backupKVs f19S1 0 1 0
+     let b2 := backupKVs f19S2 (maxVersionOf b1) 3 0
      let r2 := ((Db.init o 0).load b1).1.load b2
      maxVersionOf b1 = 1 ∧ r2.2 = true ∧
-     visRead f16S2 [0x6b] 3 0 = none ∧
+     visRead f19S2 [0x6b] 3 0 = none ∧
      visRead r2.1.lsm.mem [0x6b] 3 0 = some ([0x6b], 1, 0, 0, 0, [0x76])) := by
   decide
 
